@@ -1,0 +1,41 @@
+//go:build verif
+
+package pilosa
+
+// Exported access for the /verif harness (properties C29 and C11). No
+// behaviour, only access: every function forwards to the unexported thing of
+// the same name.
+
+// VerifHolderFragment wraps Holder.fragment(index, field, view, shard): the
+// open fragment a node serves requests from. It returns nil when the node
+// has no such fragment.
+func VerifHolderFragment(h *Holder, index, field, view string, shard uint64) *VerifFragment {
+	f := h.fragment(index, field, view, shard)
+	if f == nil {
+		return nil
+	}
+	return &VerifFragment{f: f}
+}
+
+// FlushCache forwards to fragment.FlushCache.
+func (v *VerifFragment) FlushCache() error { return v.f.FlushCache() }
+
+// View is the name of the view the fragment belongs to.
+func (v *VerifFragment) View() string { return v.f.view }
+
+// MergeBlock forwards to fragment.mergeBlock with the remote blocks given as
+// (rowIDs, columnIDs) pairs; it returns the per-remote sets and clears.
+func (v *VerifFragment) MergeBlock(id int, rowIDs, columnIDs [][]uint64) (setRows, setCols, clearRows, clearCols [][]uint64, err error) {
+	data := make([]pairSet, len(rowIDs))
+	for i := range rowIDs {
+		data[i] = pairSet{rowIDs: rowIDs[i], columnIDs: columnIDs[i]}
+	}
+	sets, clears, err := v.f.mergeBlock(id, data)
+	for _, s := range sets {
+		setRows, setCols = append(setRows, s.rowIDs), append(setCols, s.columnIDs)
+	}
+	for _, c := range clears {
+		clearRows, clearCols = append(clearRows, c.rowIDs), append(clearCols, c.columnIDs)
+	}
+	return setRows, setCols, clearRows, clearCols, err
+}
